@@ -354,6 +354,10 @@ def main(argv=None):
     if a.only or a.limit:                 # partial runs never overwrite the evidence of a full run
         os.makedirs(os.path.join(EVID, "tmp"), exist_ok=True)
         path = os.path.join(EVID, "tmp", pid + ".partial.json")
+    elif os.path.realpath(os.environ.get("VERIF_REPO") or "/repo") != "/repo":
+        # a run against a scratch copy (seeded change) is not evidence about /repo
+        os.makedirs(os.path.join(EVID, "tmp"), exist_ok=True)
+        path = os.path.join(EVID, "tmp", pid + ".scratch-%d.json" % os.getpid())
     txt = json.dumps(ev, indent=1, default=_jsonable, sort_keys=False)
     open(path, "w").write(txt + "\n")
     try:
